@@ -156,8 +156,10 @@ theorem assertion_paths (path : List Char) (hsuf : ".po".toList.isSuffixOf path 
   splitext_po_failure (basename path)
     (suffix_basename _ _ (by decide) (List.isSuffixOf_iff_suffix.1 hsuf)) hext
 
-theorem stagePath_error (opt : Option Language) (path : List Char) (e : LErr) (h : stagePath opt path = .error e) :
-    e = .assertion ∧ opt = none ∧ ".po".toList.isSuffixOf path = true ∧ (splitext (basename path)).2 ≠ ".po".toList := by
+/-- the path stage raises nothing: the base name is consulted only when `os.path.splitext` gives it the extension `.po`, and then
+    `assert ext == '.po'` holds (before /repo d16b49e the gate was `path.endswith('.po')` and `.po`, `..po` failed the assertion) -/
+theorem stagePath_error (opt : Option Language) (path : List Char) (e : LErr) : stagePath opt path ≠ .error e := by
+  intro h
   unfold stagePath at h
   cases opt with
   | some l => cases h
@@ -167,36 +169,26 @@ theorem stagePath_error (opt : Option Language) (path : List Char) (e : LErr) (h
     | some l => simp [hlc] at h
     | none =>
       simp only [hlc, Option.map_none] at h
-      by_cases hsuf : ".po".toList.isSuffixOf path = true
-      · simp only [hsuf, if_true] at h
-        by_cases hext : (splitext (basename path)).2 = ".po".toList
-        · rw [basenameLanguage_eq _ hext] at h
-          cases hb : (known (splitext (basename path)).1).bind (fun l => if l.enc.isSome then none else some (dropEuro l)) with
-          | none => simp [hb] at h
-          | some l => simp [hb] at h
-        · rw [basenameLanguage_assert _ hext] at h
-          cases h
-          exact ⟨rfl, rfl, hsuf, hext⟩
-      · rw [if_neg hsuf] at h
+      by_cases hext : (splitext (basename path)).2 = ".po".toList
+      · simp only [hext, if_true] at h
+        rw [basenameLanguage_eq _ hext] at h
+        cases hb : (known (splitext (basename path)).1).bind (fun l => if l.enc.isSome then none else some (dropEuro l)) with
+        | none => simp [hb] at h
+        | some l => simp [hb] at h
+      · rw [if_neg hext] at h
         cases h
 
-/-- the only exception `check_language` can raise -/
-theorem checkLanguage_error (munch : List Char → List Char) (inp : Input) (e : LErr) (h : checkLanguage munch inp = .error e) :
-    e = .assertion ∧ inp.isTemplate = false ∧ inp.optLanguage = none ∧ ".po".toList.isSuffixOf inp.path = true
-      ∧ (splitext (basename inp.path)).2 ≠ ".po".toList := by
+/-- `check_language` raises nothing -/
+theorem checkLanguage_error (munch : List Char → List Char) (inp : Input) (e : LErr) : checkLanguage munch inp ≠ .error e := by
+  intro h
   unfold checkLanguage at h
   by_cases ht : inp.isTemplate = true
   · simp [ht] at h
   · have ht' : inp.isTemplate = false := by simpa using ht
     simp only [ht', Bool.false_eq_true, if_false] at h
     cases hps : stagePath inp.optLanguage inp.path with
-    | error e' =>
-      simp only [hps] at h
-      cases h
-      have := stagePath_error _ _ _ hps
-      exact ⟨this.1, ht', this.2⟩
+    | error e' => exact stagePath_error _ _ _ hps
     | ok ps =>
-      exfalso
       simp only [hps] at h
       cases hfv : (stageMeta inp.metaLanguages).metaLanguage with
       | none =>
@@ -227,13 +219,10 @@ theorem checkLanguage_error (munch : List Char → List Char) (inp : Input) (e :
             rw [hst] at h
             cases h
 
-/-- NoCrash: with the file type derived from the name (`Checker.check()` without `--file-type`), `check_language` returns -/
-theorem checkLanguage_nocrash (munch : List Char → List Char) (inp : Input) (hg : knownExtension inp.path = true) :
-    ∃ out, checkLanguage munch inp = .ok out := by
+/-- NoCrash: `check_language` returns, for every path, option and header (also under the hidden `--file-type` option) -/
+theorem checkLanguage_nocrash (munch : List Char → List Char) (inp : Input) : ∃ out, checkLanguage munch inp = .ok out := by
   cases h : checkLanguage munch inp with
   | ok out => exact ⟨out, rfl⟩
-  | error e =>
-    obtain ⟨_, _, _, hsuf, hext⟩ := checkLanguage_error munch inp e h
-    exact absurd (ext_po_of_gate inp.path hg hsuf) hext
+  | error e => exact absurd h (checkLanguage_error munch inp e)
 
 end I18n.Locale
